@@ -483,6 +483,35 @@ pub fn run_history(rng: &mut Rng, cfg: &HistCfg, dir: &Path, tag: &str) -> HistR
             }
             continue;
         }
+        // now and then: a member prepares a commit and abandons it (never published):
+        // create -> clear_pending_commit must leave everything as it was
+        if rng.chance(4) {
+            let m = *rng.pick(&actors);
+            if !w.clients[m].pending_own.contains_key(&g) {
+                let gid = w.gid(g);
+                let before = w.clients[m].fp(&gid);
+                mdk_core::verif::set_created_at(Some(w.t));
+                let admin = w.is_admin_now(m, g);
+                let made = if admin && rng.chance(50) {
+                    with_mdk!(w.clients[m].mdk, x => x.update_group_data(&gid, NostrGroupDataUpdate::new().name(format!("abandoned-{}", w.t)))).is_ok()
+                } else {
+                    with_mdk!(w.clients[m].mdk, x => x.self_update(&gid)).is_ok()
+                };
+                if made {
+                    step_monitors(&w, m, &mut mon, "commit-created-not-published");
+                    let cleared = with_mdk!(w.clients[m].mdk, x => x.clear_pending_commit(&gid));
+                    mon.count("abandoned_commits");
+                    w.note(format!("A m{m} prepared a commit and abandoned it (clear_pending_commit ok={})", cleared.is_ok()));
+                    let after = w.clients[m].fp(&gid);
+                    if before != after {
+                        let parts = before.diff(&after);
+                        mon.find("C08", format!("C08|abandoned-commit-left-a-trace|parts={}", parts.join("+")), format!("c{m}: create commit + clear_pending_commit changed {:?}; e.g. {}: `{}` -> `{}`", parts, parts[0], crate::util::short(before.part(parts[0]), 200), crate::util::short(after.part(parts[0]), 200)));
+                    }
+                    step_monitors(&w, m, &mut mon, "clear_pending_commit");
+                }
+            }
+            continue;
+        }
         // delivery
         let all: Vec<usize> = (0..w.clients.len()).filter(|i| Some(*i) != w.groups[g].oracle && w.groups[g].invited.contains(i)).collect();
         let m = *rng.pick(&all);
